@@ -336,3 +336,22 @@ def _vm_sites(repo):
 
 def arms_text(arms):
     return "\n".join(arms.values())
+
+
+@item("C12_BUILTIN_NAMES")
+def _builtin_names(repo):
+    """names registered by defaults.rs (the check compares them with what the harness covers)"""
+    src = strip_comments(read(repo, "minijinja/src/defaults.rs"))
+    out = {}
+    for kind, fn in (("filter", "build_builtin_filters"), ("test", "build_builtin_tests"), ("function", "build_globals")):
+        body = fn_body(src, r"fn\s+%s\s*\(\s*\)[^{]*\{" % fn)
+        names = re.findall(r"rv\s*\.\s*insert\(\s*\"([^\"]+)\"\s*\.into\(\)", body)
+        if not names:
+            raise KeyError(f"no names in {fn}")
+        if len(names) != len(re.findall(r"rv\s*\.\s*insert\(", body)):
+            raise KeyError(f"{fn}: an insert whose name is not a string literal")
+        out[kind] = sorted(set(names))
+    lean = "\n".join(
+        f"def undefBuiltin{k.capitalize()}s : List String := [" + ", ".join(lean_str(n) for n in v) + "]"
+        for k, v in out.items())
+    return out, lean
